@@ -120,7 +120,7 @@ def run_case(args):
             if h.claims:
                 # vacuity guard first: the path's reachability twin (axioms + path condition, no claim)
                 ttext, _ = engine.claim_query(h.claims[-1], twin=True)
-                tr, _, ts, _ = smt.solve(ttext, min(case.timeout, 30), want_model=False)
+                tr, _, ts, _ = smt.solve(ttext, min(case.timeout, 15), want_model=False)
                 twin_done = tr
                 stats['twin_queries'] = stats.get('twin_queries', 0) + 1
                 if tr == 'unsat':
